@@ -7,6 +7,8 @@ for d in sorted(glob.glob("/verif/seeded/*/meta.json")):
     det = m.get("detected_by") or {}
     res = "; ".join("%s %s (%s, %.0f s)" % (p, v["result"], v["tier"], v["seconds"]) for p, v in sorted(det.items())) or "not run yet"
     note = m.get("strengthened", "")
+    if m.get("declined"):
+        note = (note + "; " if note else "") + "not judged: " + m["declined"]
     rows.append("| %s | %s | %s | %s%s |" % (sid, (m.get("breaks") or "").replace("|", "/")[:230], (m.get("needs_to_manifest") or "").replace("|", "/")[:200], res, (" — " + note) if note else ""))
 table = "| id | change | needs to manifest | caught by |\n|---|---|---|---|\n" + "\n".join(rows)
 p = "/verif/DESIGN.md"; s = open(p).read()
